@@ -7,6 +7,10 @@ BASE = json.load(open("/root/.vp/BASELINE.json"))["cmd"] if Path("/root/.vp/BASE
     "cd /repo && /venv/bin/python -m pytest -ra -q -p no:cacheprovider --timeout=900 --continue-on-collection-errors --junitxml=<file>"
 
 CHECKS = {
+ "C12": dict(cat="exploration", ref="§C12, §1.1",
+    tech="property-based testing (Hypothesis) with a differential oracle across invocation routes: generated source sets (SchemaSpec schemas, XML sample sets, the repository's fixture source sets) x generated configurations are generated in fresh interpreters through the API under three PYTHONHASHSEED values, the API twice in one interpreter, the command line with flags, the command line with a project file, and the command line with --cache cold then warm; all file trees must be byte-identical",
+    text="Generated search; per case seven generator runs in separate processes, compared path by path and byte by byte with the API run under PYTHONHASHSEED=0 (outcomes compared when generation is refused). Searched, not proved; the hash seeds are 2 of 8 fixed values per case.",
+    note="Stand-ins for click/jinja2/toposort, no ruff; the click stand-in implements the documented parsing of the declarations xsdata uses, and options the command line does not expose travel in a partial project file. Recorded finding: warm sources cache with WSDL input (excluded by construction, replayed)."),
  "C07": dict(cat="exploration", ref="§C07, §1.1",
     tech="property-based testing (Hypothesis) over generated source sets with a hostile name alphabet (XML Schemas from the SchemaSpec generator, irregular XML samples, irregular JSON samples) x the whole output-option space; oracles = outcome classification (success or the generator's own CodegenError), import of every generated module, XmlContext.build + instantiation of every generated class, AST scan of the generated source for names bound twice",
     text="Generated search: per case one source set and one point of the option space (structure style, compound fields incl. forced default name, wrapper fields, unnest, frozen/slots/eq/order/kw_only/unsafe_hash/repr, docstring style, naming case and safe prefix per name kind, relative imports, generic collections, line length, header). Generation must end in success or CodegenError; every module must import; every dataclass must yield binding metadata and accept construction; no class body may bind a field twice and no module or class body a class twice. Searched, not proved.",
